@@ -11,6 +11,7 @@ from struct import pack
 from struct import unpack
 from typing import ClassVar
 
+from exabgp.bgp.message.notification import Notify
 from exabgp.bgp.message.update.attribute.sr.prefixsid import PrefixSid
 from exabgp.util.types import Buffer
 
@@ -82,7 +83,8 @@ class SrGb:
 
     @classmethod
     def unpack_attribute(cls, data: Buffer, length: int) -> SrGb:
-        # Validation happens in __init__
+        if len(data) < 2 or (len(data) - 2) % 6 != 0:
+            raise Notify(3, 5, f'Invalid SRGB TLV size. Should be 2 + N*6 but {len(data)} received')
         return cls(data)
 
     def json(self, compact: bool | None = None) -> str:
